@@ -56,8 +56,8 @@ def run(run, only=None):
                                                         "name": "chain/%s/%s" % (fam, svc)}))
     for fam in ("bool", "arith", "bv"):
         for svc in (("simplify", "atoms", "logic", "nnf", "dagprint-parse") if quick else svcs):
-            if svc == "times-distributor":
-                continue
+            if svc in ("times-distributor", "construct"):
+                continue            # the DAG is built before the counters start: there is no "construct" service for this family
             jobs.append(("props.c20_xh", "h_dag", t, {"family": fam, "service": svc, "name": "dag/%s/%s" % (fam, svc)}))
     # every operator nested in itself / in another operator of its sort with full sharing: DAG printer output and parser work
     jobs.append(("props.c20_xh", "h_nest", t * 2, {"family": "nest", "service": "print-self", "mode": "plain", "self_only": True, "maxd": 12, "mind": 9 if quick else 2,
